@@ -9,6 +9,16 @@
 //!  * `kill`    (d) SIGKILL on entry of the k-th file syscall of the save (strace injection)
 //!  * `errno`   (d') the k-th openat / write / lseek / rename ... of the save fails (strace)
 //!  * `observer`(e) a concurrent reader while two workbooks are saved alternately
+//!  * `stale`   (f) a stale temp file (larger / equal / smaller than the new output, also
+//!                  read-only) pre-exists under exactly the library's temp name, with and
+//!                  without a fault
+//!  * `names`   (g) destination names: no extension, `*.tmp`, `*.<ext>.tmp`, several dots,
+//!                  dot-file — healthy, fsize, kill, stale temp
+//!  * `chain`   (h) two saves into one directory: a big save that is killed / fails (and may
+//!                  leave its temp file), then a small one (and the other way round)
+//!  * `concurrent`(i) different workbooks saved concurrently to same-stem destinations
+//!                  (`report.xlsx` / `report.xlsm`) of one directory, each destination judged
+//!                  on its own, with an observer per destination
 //!
 //! Oracle = the statement, nothing more:
 //!  * the call panics (or the process crashes)                     -> violation
@@ -52,10 +62,12 @@ const BUF: u64 = 8192;
 
 fn describe(ctx: &Ctx) {
     *ctx.level.lock().unwrap() = "fault_enumeration".into();
-    ctx.rule("fault plans over (save kind in xlsx/light/csv/password) x (workbook spec below/above the 8 KiB BufWriter buffer, csv files of exactly 8191/8192/8193 bytes) x (destination absent / old content shorter / longer than the new file): fsize = RLIMIT_FSIZE N in {0,1,2,511..513,4095..4097,8191..8193,len-2..len+1} + seeded offsets (thorough: every N for files <= 9 KiB, stride otherwise); target = missing dir / destination is an (empty|non-empty) directory / temp name is a directory; kill = SIGKILL on entry of the k-th call of every traced file syscall after the save began (all k when a name occurs <= 12 times, else first/last 4 + seeded sample; thorough: up to 2500 per name); errno = k-th openat/write/lseek/rename/unlink fails; observer = reader threads during alternating saves; sink = generated (workbook, chunk size, failing call index, mode) plans. Non-trivial = the fault lands strictly inside the save (0 < N < file length; kill after the temp file was created and before the helper reported; strace marked a call INJECTED; the sink's failing call index was reached; the observer saw >= 2 different complete files); distinct by the serialised case");
+    ctx.rule("fault plans over (save kind in xlsx/light/csv/password) x (workbook spec below/above the 8 KiB BufWriter buffer, csv files of exactly 8191/8192/8193 bytes) x (destination absent / old content shorter / longer than the new file): fsize = RLIMIT_FSIZE N in {0,1,2,511..513,4095..4097,8191..8193,len-2..len+1} + seeded offsets (thorough: every N for files <= 9 KiB, stride otherwise); target = missing dir / destination is an (empty|non-empty) directory / temp name is a directory; kill = SIGKILL on entry of the k-th call of every traced file syscall after the save began (all k when a name occurs <= 12 times, else first/last 4 + seeded sample; thorough: up to 2500 per name); errno = k-th openat/write/lseek/rename/unlink fails; observer = reader threads during alternating saves (also to a destination called book.tmp); stale = a stale temp file under the library's temp name (larger/equal/smaller than the output, read-only) x {healthy, fsize, kill/errno at rename}; names = destination names {no extension, *.tmp, *.<ext>.tmp, several dots, dot-file} x {healthy, fsize, kill, stale temp}; chain = a killed/failed save followed by a second save in the same directory; concurrent = same-stem destinations saved concurrently; sink = generated (workbook, chunk size, failing call index, mode) plans. Non-trivial = the fault lands strictly inside the save (0 < N < file length; kill after the temp file was created and before the helper reported; strace marked a call INJECTED; the sink's failing call index was reached; the observer saw >= 2 different complete files; the second save of a chain met a leftover temp file; a concurrent saver completed >= 2 saves); distinct by the serialised case");
     ctx.assume("rename(2) is atomic with respect to concurrent open(2)+read(2) of the destination (kernel guarantee); instants inside one syscall are not enumerated");
     ctx.assume("RLIMIT_FSIZE with SIGXFSZ ignored models 'disk full / size limit': the kernel accepts bytes up to offset N and fails the rest with EFBIG");
     ctx.assume("a complete encrypted file is one whose compound-file structure validates (cfb crate), whose two streams read to the end and whose package decrypts with the password (decryptor written in the harness) to a complete zip with the same cells");
+    ctx.assume("Ok => the destination is *exactly* a complete file: csv byte-equal to an in-memory save; a package starts with a local header and ends with its end-of-central-directory record (nothing before or after the archive); a compound file is a whole number of sectors");
+    ctx.assume("only the destination(s) of the saves are judged; other files of the directory (including a file that happens to carry the library's temp name) are not part of the statement");
     ctx.assume("durability after power loss (fsync) is not part of the statement and is not judged");
 }
 
@@ -87,6 +99,57 @@ pub struct PathCase {
     pub kind: SaveKind,
     pub pre: Pre,
     pub fault: Fault,
+    /// destination file name (default `book.<ext of the kind>`)
+    #[serde(default, skip_serializing_if = "Option::is_none")]
+    pub name: Option<String>,
+    /// a stale temp file (what an earlier interrupted save leaves behind) pre-exists under
+    /// exactly the temp name the library derives from the destination
+    #[serde(default, skip_serializing_if = "Option::is_none")]
+    pub stale_tmp: Option<Stale>,
+}
+
+#[derive(Debug, Clone, PartialEq, Eq, Hash, Serialize, Deserialize)]
+pub struct Stale {
+    pub len: u32,
+    pub readonly: bool,
+}
+
+/// content of a stale temp file: csv-looking lines, so that a leaked tail is plausible data
+pub fn stale_content(len: u32) -> Vec<u8> {
+    let mut v = Vec::with_capacity(len as usize);
+    let mut i = 0u64;
+    while v.len() < len as usize {
+        v.extend_from_slice(format!("STALE-TEMP-ROW-{},{:08x}\r\n", i, splitmix(i ^ 0x57A1E) as u32).as_bytes());
+        i += 1;
+    }
+    v.truncate(len as usize);
+    v
+}
+
+/// The temp name the library derives from a destination: `<name>.<ext>tmp`
+/// (`<name>.tmp` for a destination without extension).
+pub fn lib_tmp_path(dest: &Path) -> PathBuf {
+    match dest.extension().and_then(|e| e.to_str()) {
+        Some(e) => dest.with_extension(format!("{}tmp", e)),
+        None => dest.with_extension("tmp"),
+    }
+}
+
+fn default_name(kind: SaveKind) -> String {
+    format!("book.{}", kind.ext())
+}
+
+/// class label of a destination file name
+pub fn name_class(name: &str) -> &'static str {
+    let parts: Vec<&str> = name.split('.').collect();
+    match parts.as_slice() {
+        [_] => "noext",
+        ["", _] => "dotfile",
+        [_, "tmp"] => "ext-tmp",
+        [.., "tmp"] => "ext-x-tmp",
+        [_, _] => "plain",
+        _ => "multi-dot",
+    }
 }
 
 pub fn old_content(len: u32) -> Vec<u8> {
@@ -168,9 +231,33 @@ pub fn expected_uncached(spec: &BookSpec, kind: SaveKind) -> Result<Expected, Tr
     let dump = if kind == SaveKind::Csv {
         None
     } else {
+        zip_exact_extent(&bytes).map_err(|e| Trouble(format!("healthy in-memory save of {:?} is not an exact zip extent: {}", spec, e)))?;
         Some(read_complete_xlsx(&bytes).map_err(|e| Trouble(format!("healthy in-memory save of {:?} does not read back: {}", spec, e)))?)
     };
     Ok(Expected { bytes, dump })
+}
+
+/// A package written by the library ends exactly with its end-of-central-directory record
+/// (no archive comment), the central directory ends where that record starts and the first
+/// local header is at offset 0: nothing may precede or follow the archive.
+pub fn zip_exact_extent(bytes: &[u8]) -> Result<(), String> {
+    let n = bytes.len();
+    if n < 22 + 4 {
+        return Err(format!("{} bytes: too short for a zip archive", n));
+    }
+    if bytes[..4] != [0x50, 0x4b, 3, 4] {
+        return Err("does not start with a local file header".into());
+    }
+    let e = n - 22;
+    if bytes[e..e + 4] != [0x50, 0x4b, 5, 6] || bytes[n - 2..] != [0, 0] {
+        return Err(format!("the last 22 of {} bytes are not the end-of-central-directory record: bytes follow (or are missing after) the archive", n));
+    }
+    let cd_size = u32::from_le_bytes(bytes[e + 12..e + 16].try_into().unwrap()) as usize;
+    let cd_off = u32::from_le_bytes(bytes[e + 16..e + 20].try_into().unwrap()) as usize;
+    if cd_off + cd_size != e {
+        return Err(format!("central directory [{}..{}) does not end at the end record ({})", cd_off, cd_off + cd_size, e));
+    }
+    Ok(())
 }
 
 /// Is `bytes` a complete new file for (spec, kind)?
@@ -186,7 +273,7 @@ pub fn complete(spec: &BookSpec, kind: SaveKind, bytes: &[u8]) -> Result<Result<
                 Err(format!("{} bytes differing from the {} bytes of an in-memory save", bytes.len(), exp.bytes.len()))
             }
         }
-        SaveKind::Xlsx | SaveKind::Light => match read_complete_xlsx(bytes) {
+        SaveKind::Xlsx | SaveKind::Light => match zip_exact_extent(bytes).and_then(|_| read_complete_xlsx(bytes)) {
             Err(e) => Err(format!("{} bytes (in-memory save: {}): {}", bytes.len(), exp.bytes.len(), e)),
             Ok(d) => {
                 if Some(&d) == exp.dump.as_ref() {
@@ -198,7 +285,8 @@ pub fn complete(spec: &BookSpec, kind: SaveKind, bytes: &[u8]) -> Result<Result<
         },
         SaveKind::Password => match agile_decrypt(bytes, PASSWORD) {
             Err(e) => Err(format!("{} bytes: {}", bytes.len(), e)),
-            Ok(pkg) => match read_complete_xlsx(&pkg) {
+            Ok(_) if !compound_file_extent_ok(bytes) => Err(format!("{} bytes: not a whole number of compound-file sectors", bytes.len())),
+            Ok(pkg) => match zip_exact_extent(&pkg).and_then(|_| read_complete_xlsx(&pkg)) {
                 Err(e) => Err(format!("decrypted package of {} bytes: {}", pkg.len(), e)),
                 Ok(d) => {
                     if Some(&d) == exp.dump.as_ref() {
@@ -210,6 +298,15 @@ pub fn complete(spec: &BookSpec, kind: SaveKind, bytes: &[u8]) -> Result<Result<
             },
         },
     })
+}
+
+/// header sector shift at offset 30; the file must consist of whole sectors
+fn compound_file_extent_ok(bytes: &[u8]) -> bool {
+    if bytes.len() < 512 {
+        return false;
+    }
+    let shift = u16::from_le_bytes([bytes[30], bytes[31]]) as u32;
+    (9..=12).contains(&shift) && bytes.len() % (1usize << shift) == 0
 }
 
 #[derive(Debug, Default, Clone)]
@@ -226,6 +323,19 @@ pub struct Info {
 }
 
 fn fault_class(c: &PathCase, new_len: u64) -> String {
+    let mut base = fault_class_base(c, new_len);
+    if let Some(n) = &c.name {
+        base.push_str(&format!("+name-{}", name_class(n)));
+    }
+    if let Some(st) = &c.stale_tmp {
+        let full = healthy_len_cached(&c.spec, c.kind).unwrap_or(new_len);
+        let rel = if st.len as u64 > full { "larger" } else if st.len as u64 == full { "equal" } else { "smaller" };
+        base.push_str(&format!("+stale-tmp-{}{}", rel, if st.readonly { "-readonly" } else { "" }));
+    }
+    base
+}
+
+fn fault_class_base(c: &PathCase, new_len: u64) -> String {
     match &c.fault {
         Fault::None => "healthy".into(),
         Fault::Fsize { .. } => match c.kind {
@@ -244,11 +354,9 @@ fn fault_class(c: &PathCase, new_len: u64) -> String {
 /// Run one path-based case end to end.  `want_trace`: run the helper under strace even
 /// without injection (dry run for the enumeration).
 pub fn check_path_case(c: &PathCase, want_trace: bool) -> Result<(Verdict, Info), Trouble> {
-    let exp = expected(&c.spec, c.kind)?;
     let td = TempDir::new(c.kind.tag())?;
     let dir = td.path.clone();
-    let fname = format!("book.{}", c.kind.ext());
-    let tmpname = format!("book.{}tmp", c.kind.ext());
+    let fname = c.name.clone().unwrap_or_else(|| default_name(c.kind));
     let dest: PathBuf = match c.fault {
         Fault::MissingDir => dir.join("missing").join(&fname),
         _ => dir.join(&fname),
@@ -266,9 +374,27 @@ pub fn check_path_case(c: &PathCase, want_trace: bool) -> Result<(Verdict, Info)
         (_, Pre::Absent) => {}
     }
     if c.fault == Fault::TmpIsDir {
-        io(std::fs::create_dir(dir.join(&tmpname)))?;
+        io(std::fs::create_dir(lib_tmp_path(&dest)))?;
     }
-    let before = snapshot(&dest);
+    if let Some(st) = &c.stale_tmp {
+        let t = lib_tmp_path(&dest);
+        if t != dest && c.fault != Fault::TmpIsDir && c.fault != Fault::MissingDir {
+            io(std::fs::write(&t, stale_content(st.len)))?;
+            if st.readonly {
+                use std::os::unix::fs::PermissionsExt;
+                io(std::fs::set_permissions(&t, std::fs::Permissions::from_mode(0o444)))?;
+            }
+        }
+    }
+    run_step(c, &dir, &dest, want_trace)
+}
+
+/// One save into an already prepared directory: snapshot, helper, snapshot, oracle.
+fn run_step(c: &PathCase, dir: &Path, dest: &Path, want_trace: bool) -> Result<(Verdict, Info), Trouble> {
+    let exp = expected(&c.spec, c.kind)?;
+    let fname = dest.file_name().map(|n| n.to_string_lossy().to_string()).unwrap_or_default();
+    let tmpname = lib_tmp_path(dest).file_name().map(|n| n.to_string_lossy().to_string()).unwrap_or_default();
+    let before = snapshot(dest);
     let args = HelperArgs {
         spec: c.spec.clone(),
         kind: c.kind,
@@ -284,12 +410,12 @@ pub fn check_path_case(c: &PathCase, want_trace: bool) -> Result<(Verdict, Info)
         Fault::TimedKill { spins } => run_helper_timed_kill(&args, *spins)?,
         _ => run_helper(&args, None, want_trace, &tracedir.path)?,
     };
-    let after = snapshot(&dest);
+    let after = snapshot(dest);
     let mut info = Info::default();
     if let Snap::File(b) = &after {
         info.after_len = Some(b.len() as u64);
     }
-    if let Ok(rd) = std::fs::read_dir(&dir) {
+    if let Ok(rd) = std::fs::read_dir(dir) {
         for e in rd.flatten() {
             let n = e.file_name().to_string_lossy().to_string();
             if n != fname && n != "missing" && !(c.fault == Fault::TmpIsDir && n == tmpname) {
@@ -323,7 +449,13 @@ pub fn check_path_case(c: &PathCase, want_trace: bool) -> Result<(Verdict, Info)
         (Some(Outcome::Panic { site, msg }), _) => {
             info.outcome = "panic".into();
             info.nontrivial = true;
-            Verdict::fail(format!("{}/{}/panic:{}", kind, class, site), format!("save panicked: {}; destination {}", msg, describe_snap(&after)))
+            // a panic with a non-default destination name is keyed by the name class alone
+            // (it happens before any I/O, whatever the fault plan)
+            let pclass = match &c.name {
+                Some(n) => format!("name-{}", name_class(n)),
+                None => class.clone(),
+            };
+            Verdict::fail(format!("{}/{}/panic:{}", kind, pclass, site), format!("save to {:?} ({}) panicked: {}; destination {}", fname, class, msg, describe_snap(&after)))
         }
         (Some(Outcome::Err { text }), _) => {
             info.outcome = "err".into();
@@ -407,6 +539,10 @@ pub fn check_path_case(c: &PathCase, want_trace: bool) -> Result<(Verdict, Info)
 type LenMap = Mutex<HashMap<(BookSpec, SaveKind), u64>>;
 static HEALTHY_LEN: OnceLock<LenMap> = OnceLock::new();
 
+fn healthy_len_cached(spec: &BookSpec, kind: SaveKind) -> Option<u64> {
+    HEALTHY_LEN.get_or_init(|| Mutex::new(HashMap::new())).lock().unwrap().get(&(spec.clone(), kind)).copied()
+}
+
 /// on-disk length of a healthy save (filled by the dry runs of the enumeration)
 fn healthy_len(spec: &BookSpec, kind: SaveKind) -> Option<u64> {
     let m = HEALTHY_LEN.get_or_init(|| Mutex::new(HashMap::new()));
@@ -417,7 +553,7 @@ fn healthy_len(spec: &BookSpec, kind: SaveKind) -> Option<u64> {
         return None; // the in-memory length is the on-disk length
     }
     // replay of a single case: measure once
-    let c = PathCase { spec: spec.clone(), kind, pre: Pre::Absent, fault: Fault::None };
+    let c = PathCase { spec: spec.clone(), kind, pre: Pre::Absent, fault: Fault::None, name: None, stale_tmp: None };
     let (_, info) = check_path_case(&c, false).ok()?;
     let l = info.after_len?;
     m.lock().unwrap().insert((spec.clone(), kind), l);
@@ -585,6 +721,9 @@ pub struct ObsCase {
     pub iterations: u32,
     pub old_len: u32,
     pub observers: u8,
+    /// destination file name (default `book.<ext>`)
+    #[serde(default, skip_serializing_if = "Option::is_none")]
+    pub name: Option<String>,
 }
 
 pub struct ObsInfo {
@@ -596,7 +735,7 @@ pub fn check_observer(c: &ObsCase) -> Result<(Verdict, ObsInfo), Trouble> {
     expected(&c.spec_a, c.kind)?;
     expected(&c.spec_b, c.kind)?;
     let td = TempDir::new("observer")?;
-    let dest = td.path.join(format!("book.{}", c.kind.ext()));
+    let dest = td.path.join(c.name.clone().unwrap_or_else(|| default_name(c.kind)));
     let old = old_content(c.old_len);
     std::fs::write(&dest, &old).map_err(|e| Trouble(format!("cannot write {}: {}", dest.display(), e)))?;
     let book_a = build_book(&c.spec_a);
@@ -607,7 +746,11 @@ pub fn check_observer(c: &ObsCase) -> Result<(Verdict, ObsInfo), Trouble> {
     let complete_set: Mutex<Vec<Vec<u8>>> = Mutex::new(vec![old.clone()]);
     let saver_fail: Mutex<Option<Verdict>> = Mutex::new(None);
     let trouble: Mutex<Option<Trouble>> = Mutex::new(None);
-    let kind = c.kind.tag();
+    let kind = match &c.name {
+        Some(n) => format!("{}+name-{}", c.kind.tag(), name_class(n)),
+        None => c.kind.tag().to_string(),
+    };
+    let kind = kind.as_str();
     let observed: Mutex<HashMap<u64, Vec<u8>>> = Mutex::new(HashMap::new());
     let missing = AtomicU64::new(0);
     let other_err: Mutex<Option<String>> = Mutex::new(None);
@@ -732,6 +875,232 @@ pub fn check_observer(c: &ObsCase) -> Result<(Verdict, ObsInfo), Trouble> {
     }
     if let Some(e) = other_err.into_inner().unwrap() {
         return Err(Trouble(format!("observer could not read the destination: {}", e)));
+    }
+    Ok((Verdict::Pass, info))
+}
+
+// ---------------------------------------------------------------------------------------
+// chained saves: an unsuccessful (killed / failed) save followed by another save into the
+// same directory, so that the second one meets whatever the first one left behind
+
+#[derive(Debug, Clone, PartialEq, Eq, Hash, Serialize, Deserialize)]
+pub struct Step {
+    pub spec: BookSpec,
+    /// None | Fsize | Inject | DestIsDir (the directory is created before and removed after the step)
+    pub fault: Fault,
+}
+
+#[derive(Debug, Clone, PartialEq, Eq, Hash, Serialize, Deserialize)]
+pub struct ChainCase {
+    pub kind: SaveKind,
+    #[serde(default, skip_serializing_if = "Option::is_none")]
+    pub name: Option<String>,
+    pub pre: Pre,
+    pub steps: Vec<Step>,
+}
+
+pub fn check_chain(c: &ChainCase) -> Result<(Verdict, Vec<Info>), Trouble> {
+    let td = TempDir::new("chain")?;
+    let dir = td.path.clone();
+    let dest = dir.join(c.name.clone().unwrap_or_else(|| default_name(c.kind)));
+    let io = |r: std::io::Result<()>| r.map_err(|e| Trouble(format!("cannot prepare {}: {}", dir.display(), e)));
+    if let Pre::Old { len } = &c.pre {
+        io(std::fs::write(&dest, old_content(*len)))?;
+    }
+    let mut infos = Vec::new();
+    let mut prev = String::from("first");
+    for (i, st) in c.steps.iter().enumerate() {
+        let pc = PathCase { spec: st.spec.clone(), kind: c.kind, pre: c.pre.clone(), fault: st.fault.clone(), name: c.name.clone(), stale_tmp: None };
+        let made_dir = if let Fault::DestIsDir { nonempty } = &st.fault {
+            if snapshot(&dest) != Snap::Absent {
+                return Err(Trouble("chain step DestIsDir needs an absent destination".into()));
+            }
+            io(std::fs::create_dir(&dest))?;
+            if *nonempty {
+                io(std::fs::write(dest.join("keep.txt"), b"keep"))?;
+            }
+            true
+        } else {
+            false
+        };
+        let (v, info) = run_step(&pc, &dir, &dest, false)?;
+        if made_dir {
+            io(std::fs::remove_dir_all(&dest))?;
+        }
+        let outcome = info.outcome.clone();
+        let class = fault_class(&pc, 0);
+        infos.push(info);
+        if let Verdict::Fail { key, detail } = v {
+            // key of a later step says what preceded it
+            let key = if i == 0 { key } else { format!("{}@after-{}", key, prev) };
+            return Ok((Verdict::Fail { key, detail: format!("step {} of {}: {}", i + 1, c.steps.len(), detail) }, infos));
+        }
+        prev = format!("{}-{}", class.split('+').next().unwrap_or("x").replace("-fits-buffer", "").replace("-exceeds-buffer", ""), outcome);
+    }
+    Ok((Verdict::Pass, infos))
+}
+
+// ---------------------------------------------------------------------------------------
+// concurrent saves of different workbooks to different destinations of one directory
+// (same stem, different extensions): each destination is judged on its own
+
+#[derive(Debug, Clone, PartialEq, Eq, Hash, Serialize, Deserialize)]
+pub struct ConcCase {
+    pub kind: SaveKind,
+    pub names: Vec<String>,
+    pub specs: Vec<BookSpec>,
+    pub iterations: u32,
+    pub old_len: u32,
+}
+
+pub struct ConcInfo {
+    pub saves_ok: u64,
+    pub saves_err: u64,
+    pub reads: u64,
+}
+
+pub fn check_concurrent(c: &ConcCase) -> Result<(Verdict, ConcInfo), Trouble> {
+    let n = c.names.len().min(c.specs.len());
+    for s in &c.specs {
+        expected(s, c.kind)?;
+    }
+    let td = TempDir::new("concurrent")?;
+    let dests: Vec<PathBuf> = c.names.iter().take(n).map(|x| td.path.join(x)).collect();
+    let olds: Vec<Vec<u8>> = (0..n).map(|i| old_content(c.old_len + i as u32 * 17)).collect();
+    for (d, o) in dests.iter().zip(&olds) {
+        std::fs::write(d, o).map_err(|e| Trouble(format!("cannot write {}: {}", d.display(), e)))?;
+    }
+    let books: Vec<_> = c.specs.iter().take(n).map(build_book).collect();
+    let kind = c.kind.tag();
+    let fail: Mutex<Option<Verdict>> = Mutex::new(None);
+    let trouble: Mutex<Option<Trouble>> = Mutex::new(None);
+    let completes: Vec<Mutex<Vec<Vec<u8>>>> = olds.iter().map(|o| Mutex::new(vec![o.clone()])).collect();
+    let observed: Vec<Mutex<HashMap<u64, Vec<u8>>>> = (0..n).map(|_| Mutex::new(HashMap::new())).collect();
+    let missing = AtomicU64::new(0);
+    let running = AtomicU64::new(n as u64);
+    let (oks, errs, reads) = (AtomicU64::new(0), AtomicU64::new(0), AtomicU64::new(0));
+    std::thread::scope(|s| {
+        for i in 0..n {
+            // observer of destination i
+            let (dests, observed, running, missing, reads) = (&dests, &observed, &running, &missing, &reads);
+            s.spawn(move || {
+                let mut last = false;
+                loop {
+                    if running.load(Ordering::SeqCst) == 0 {
+                        if last {
+                            break;
+                        }
+                        last = true;
+                    }
+                    match std::fs::read(&dests[i]) {
+                        Ok(b) => {
+                            reads.fetch_add(1, Ordering::Relaxed);
+                            let h = fnv(&b) ^ (b.len() as u64).rotate_left(32);
+                            let mut o = observed[i].lock().unwrap();
+                            if !o.contains_key(&h) && o.len() < 4096 {
+                                o.insert(h, b);
+                            }
+                        }
+                        Err(e) if e.kind() == std::io::ErrorKind::NotFound => {
+                            missing.fetch_add(1, Ordering::Relaxed);
+                        }
+                        Err(_) => {}
+                    }
+                }
+            });
+            // saver of destination i
+            let (books, specs, completes, fail, trouble, oks, errs) = (&books, &c.specs, &completes, &fail, &trouble, &oks, &errs);
+            s.spawn(move || {
+                let mut last_complete: Vec<u8> = completes[i].lock().unwrap()[0].clone();
+                for round in 0..c.iterations {
+                    if fail.lock().unwrap().is_some() {
+                        break;
+                    }
+                    let r = guard(|| save_to_path(&books[i], c.kind, &dests[i]));
+                    let now = std::fs::read(&dests[i]);
+                    let set_fail = |v: Verdict| {
+                        let mut f = fail.lock().unwrap();
+                        if f.is_none() {
+                            *f = Some(v);
+                        }
+                    };
+                    match r {
+                        Err(p) => {
+                            set_fail(Verdict::fail(format!("{}/concurrent/panic:{}", kind, p.site()), format!("save {} to {} panicked: {}", round, c.names[i], p.short())));
+                            break;
+                        }
+                        Ok(Ok(())) => {
+                            oks.fetch_add(1, Ordering::Relaxed);
+                            match now {
+                                Err(e) => {
+                                    set_fail(Verdict::fail(format!("{}/concurrent/ok-but-destination-not-a-file", kind), format!("save {} to {} returned Ok, destination unreadable: {}", round, c.names[i], e)));
+                                    break;
+                                }
+                                Ok(b) => match complete(&specs[i], c.kind, &b) {
+                                    Err(t) => {
+                                        *trouble.lock().unwrap() = Some(t);
+                                        break;
+                                    }
+                                    Ok(Err(why)) => {
+                                        set_fail(Verdict::fail(
+                                            format!("{}/concurrent/ok-but-destination-incomplete", kind),
+                                            format!("save {} to {} returned Ok(()) while other saves ran to {:?}, but its destination is not its complete new file: {}", round, c.names[i], c.names, why),
+                                        ));
+                                        break;
+                                    }
+                                    Ok(Ok(())) => {
+                                        let mut cs = completes[i].lock().unwrap();
+                                        if !cs.iter().any(|x| x == &b) {
+                                            cs.push(b.clone());
+                                        }
+                                        last_complete = b;
+                                    }
+                                },
+                            }
+                        }
+                        Ok(Err(e)) => {
+                            errs.fetch_add(1, Ordering::Relaxed);
+                            let same = matches!(&now, Ok(b) if *b == last_complete);
+                            if !same {
+                                set_fail(Verdict::fail(
+                                    format!("{}/concurrent/err-but-destination-changed", kind),
+                                    format!("save {} to {} returned Err({:?}) and its destination changed: had {} bytes, now {}", round, c.names[i], e, last_complete.len(), now.map(|b| format!("{} bytes", b.len())).unwrap_or_else(|e| e.to_string())),
+                                ));
+                                break;
+                            }
+                        }
+                    }
+                }
+                running.fetch_sub(1, Ordering::SeqCst);
+            });
+        }
+    });
+    if let Some(t) = trouble.into_inner().unwrap() {
+        return Err(t);
+    }
+    let info = ConcInfo { saves_ok: oks.load(Ordering::Relaxed), saves_err: errs.load(Ordering::Relaxed), reads: reads.load(Ordering::Relaxed) };
+    if let Some(v) = fail.into_inner().unwrap() {
+        return Ok((v, info));
+    }
+    if missing.load(Ordering::Relaxed) > 0 {
+        return Ok((Verdict::fail(format!("{}/concurrent/destination-missing", kind), format!("{} opens found a destination missing that existed before the saves began", missing.load(Ordering::Relaxed))), info));
+    }
+    for i in 0..n {
+        let obs = observed[i].lock().unwrap();
+        let cs = completes[i].lock().unwrap();
+        let mut keys: Vec<&u64> = obs.keys().collect();
+        keys.sort();
+        for k in keys {
+            if !cs.iter().any(|x| x == &obs[k]) {
+                return Ok((
+                    Verdict::fail(
+                        format!("{}/concurrent/torn-read", kind),
+                        format!("an observer of {} read {} bytes that are neither its old content nor a complete file one of its finished saves left ({} versions)", c.names[i], obs[k].len(), cs.len()),
+                    ),
+                    info,
+                ));
+            }
+        }
     }
     Ok((Verdict::Pass, info))
 }
@@ -892,12 +1261,12 @@ fn extra(ctx: &Ctx) {
         let dry: Vec<Result<(Verdict, Info), Trouble>> = combos
             .par_iter()
             .map(|cb| {
-                let c = PathCase { spec: cb.spec.clone(), kind: cb.kind, pre: Pre::Old { len: 1500 }, fault: Fault::None };
+                let c = PathCase { spec: cb.spec.clone(), kind: cb.kind, pre: Pre::Old { len: 1500 }, fault: Fault::None, name: None, stale_tmp: None };
                 check_path_case(&c, strace.is_ok() && cb.traced)
             })
             .collect();
         for (cb, r) in combos.iter().zip(dry) {
-            let c = PathCase { spec: cb.spec.clone(), kind: cb.kind, pre: Pre::Old { len: 1500 }, fault: Fault::None };
+            let c = PathCase { spec: cb.spec.clone(), kind: cb.kind, pre: Pre::Old { len: 1500 }, fault: Fault::None, name: None, stale_tmp: None };
             match r {
                 Err(t) => {
                     println!("HARNESS-ERROR: C13 healthy dry run failed: {}", t.0);
@@ -958,17 +1327,17 @@ fn extra(ctx: &Ctx) {
             generated.insert(1 + x % full.max(2).saturating_sub(1));
         }
         // first a plain mid-file failure over an existing destination (the most readable witness)
-        fsize_cases.push(PathCase { spec: cb.spec.clone(), kind: cb.kind, pre: pres[0].clone(), fault: Fault::Fsize { limit: (full / 2).max(1) } });
+        fsize_cases.push(PathCase { spec: cb.spec.clone(), kind: cb.kind, pre: pres[0].clone(), fault: Fault::Fsize { limit: (full / 2).max(1) }, name: None, stale_tmp: None });
         generated.remove(&((full / 2).max(1)));
         // boundary offsets with every pre-state; generated offsets with one pre-state each
         for n in &fixed {
             for p in &pres {
-                fsize_cases.push(PathCase { spec: cb.spec.clone(), kind: cb.kind, pre: p.clone(), fault: Fault::Fsize { limit: *n } });
+                fsize_cases.push(PathCase { spec: cb.spec.clone(), kind: cb.kind, pre: p.clone(), fault: Fault::Fsize { limit: *n }, name: None, stale_tmp: None });
             }
         }
         for n in generated.difference(&fixed) {
             let p = pres[(splitmix(*n ^ ctx.seed) % pres.len() as u64) as usize].clone();
-            fsize_cases.push(PathCase { spec: cb.spec.clone(), kind: cb.kind, pre: p, fault: Fault::Fsize { limit: *n } });
+            fsize_cases.push(PathCase { spec: cb.spec.clone(), kind: cb.kind, pre: p, fault: Fault::Fsize { limit: *n }, name: None, stale_tmp: None });
         }
     }
     let n_fsize = fsize_cases.len();
@@ -978,10 +1347,10 @@ fn extra(ctx: &Ctx) {
     let mut target_cases = Vec::new();
     for cb in combos.iter().filter(|c| c.label == "small" || c.label == "large") {
         for f in [Fault::MissingDir, Fault::DestIsDir { nonempty: false }, Fault::DestIsDir { nonempty: true }] {
-            target_cases.push(PathCase { spec: cb.spec.clone(), kind: cb.kind, pre: Pre::Absent, fault: f });
+            target_cases.push(PathCase { spec: cb.spec.clone(), kind: cb.kind, pre: Pre::Absent, fault: f, name: None, stale_tmp: None });
         }
         for p in [Pre::Absent, Pre::Old { len: 1500 }] {
-            target_cases.push(PathCase { spec: cb.spec.clone(), kind: cb.kind, pre: p, fault: Fault::TmpIsDir });
+            target_cases.push(PathCase { spec: cb.spec.clone(), kind: cb.kind, pre: p, fault: Fault::TmpIsDir, name: None, stale_tmp: None });
         }
     }
     let n_target = target_cases.len();
@@ -1025,8 +1394,7 @@ fn extra(ctx: &Ctx) {
                                 spec: cb.spec.clone(),
                                 kind: cb.kind,
                                 pre: p,
-                                fault: Fault::Inject(Inject::Kill { syscall: name.clone(), k }),
-                            });
+                                fault: Fault::Inject(Inject::Kill { syscall: name.clone(), k }), name: None, stale_tmp: None });
                         }
                     }
                     // errno leg: same points for the calls that can fail in real life
@@ -1047,8 +1415,7 @@ fn extra(ctx: &Ctx) {
                                     spec: cb.spec.clone(),
                                     kind: cb.kind,
                                     pre: p,
-                                    fault: Fault::Inject(Inject::Errno { syscall: name.clone(), k, errno: errno.into(), persistent }),
-                                });
+                                    fault: Fault::Inject(Inject::Errno { syscall: name.clone(), k, errno: errno.into(), persistent }), name: None, stale_tmp: None });
                             }
                         }
                     }
@@ -1062,8 +1429,7 @@ fn extra(ctx: &Ctx) {
                         spec: cb.spec.clone(),
                         kind: cb.kind,
                         pre: Pre::Old { len: 1500 },
-                        fault: Fault::Inject(Inject::Kill { syscall: name, k }),
-                    });
+                        fault: Fault::Inject(Inject::Kill { syscall: name, k }), name: None, stale_tmp: None });
                 }
             }
         }
@@ -1075,7 +1441,7 @@ fn extra(ctx: &Ctx) {
                 for _ in 0..ctx.tier.pick(24, 400) {
                     x = splitmix(x);
                     let spins = x % if cb.kind == SaveKind::Password { 40_000_000 } else { 400_000 };
-                    kill_cases.push(PathCase { spec: cb.spec.clone(), kind: cb.kind, pre: Pre::Old { len: 1500 }, fault: Fault::TimedKill { spins } });
+                    kill_cases.push(PathCase { spec: cb.spec.clone(), kind: cb.kind, pre: Pre::Old { len: 1500 }, fault: Fault::TimedKill { spins }, name: None, stale_tmp: None });
                 }
             }
         }
@@ -1083,6 +1449,124 @@ fn extra(ctx: &Ctx) {
     let (n_kill, n_errno) = (kill_cases.len(), errno_cases.len());
     leg.run("kill", kill_cases);
     leg.run("errno", errno_cases);
+
+    // the rename call of a save, as strace counts it (same index for every combo: the
+    // process start-up issues none)
+    let rename_point: Option<(String, u32)> = traces
+        .iter()
+        .flatten()
+        .flat_map(|t| t.iter())
+        .find(|l| l.after_begin && l.name.starts_with("rename"))
+        .map(|l| (l.name.clone(), l.k));
+
+    // ---- (f) a stale temp file pre-exists under exactly the library's temp name
+    let mut stale_cases = Vec::new();
+    for (i, cb) in combos.iter().enumerate().filter(|(_, c)| c.label == "small" || c.label == "large") {
+        let full = lens[i];
+        if full == 0 {
+            continue;
+        }
+        let stales = [
+            Stale { len: (full + 7000) as u32, readonly: false },
+            Stale { len: full as u32, readonly: false },
+            Stale { len: (full / 2).max(1) as u32, readonly: false },
+            Stale { len: (full + 7000) as u32, readonly: true },
+        ];
+        for st in &stales {
+            let mut faults = vec![(Fault::None, Pre::Old { len: 1500 }), (Fault::None, Pre::Absent), (Fault::Fsize { limit: (full / 2).max(1) }, Pre::Old { len: 1500 }), (Fault::Fsize { limit: full.saturating_sub(1) }, Pre::Absent)];
+            if let (Some((name, k)), false) = (&rename_point, st.readonly) {
+                faults.push((Fault::Inject(Inject::Kill { syscall: name.clone(), k: *k }), Pre::Old { len: 1500 }));
+                faults.push((Fault::Inject(Inject::Errno { syscall: name.clone(), k: *k, errno: "EACCES".into(), persistent: false }), Pre::Old { len: 1500 }));
+            }
+            for (f, p) in faults {
+                stale_cases.push(PathCase { spec: cb.spec.clone(), kind: cb.kind, pre: p, fault: f, name: None, stale_tmp: Some(st.clone()) });
+            }
+        }
+    }
+    let n_stale = stale_cases.len();
+    leg.run("stale", stale_cases);
+
+    // ---- (g) destination names: no extension, *.tmp, *.<ext>.tmp, several dots, dot-file
+    let mut name_cases = Vec::new();
+    for (i, cb) in combos.iter().enumerate().filter(|(_, c)| c.label == "small" || (c.label == "large" && c.kind != SaveKind::Password)) {
+        let full = lens[i];
+        if full == 0 {
+            continue;
+        }
+        let e = cb.kind.ext();
+        for name in ["book".to_string(), "book.tmp".to_string(), format!("book.{}.tmp", e), format!("my.book.v2.{}", e), format!(".book-{}", e)] {
+            let mk = |pre: Pre, fault: Fault, stale: Option<Stale>| PathCase { spec: cb.spec.clone(), kind: cb.kind, pre, fault, name: Some(name.clone()), stale_tmp: stale };
+            name_cases.push(mk(Pre::Absent, Fault::None, None));
+            name_cases.push(mk(Pre::Old { len: 1500 }, Fault::None, None));
+            name_cases.push(mk(Pre::Old { len: 1500 }, Fault::Fsize { limit: (full / 2).max(1) }, None));
+            name_cases.push(mk(Pre::Old { len: (full + 20_000) as u32 }, Fault::Fsize { limit: 1 }, None));
+            name_cases.push(mk(Pre::Absent, Fault::Fsize { limit: full.saturating_sub(1) }, None));
+            name_cases.push(mk(Pre::Old { len: 1500 }, Fault::None, Some(Stale { len: (full + 7000) as u32, readonly: false })));
+            if let Some((rn, k)) = &rename_point {
+                name_cases.push(mk(Pre::Old { len: 1500 }, Fault::Inject(Inject::Kill { syscall: rn.clone(), k: *k }), None));
+                name_cases.push(mk(Pre::Old { len: 1500 }, Fault::Inject(Inject::Kill { syscall: "write".into(), k: 1 }), None));
+            }
+        }
+    }
+    let n_names = name_cases.len();
+    leg.run("names", name_cases);
+
+    // ---- (h) chained saves: a big save that is killed / fails, then a small save
+    let mut chain_cases = Vec::new();
+    for kind in SaveKind::ALL {
+        let find = |label: &str| combos.iter().position(|c| c.kind == kind && c.label == label);
+        let (Some(bi), Some(si)) = (find("large"), find("small")) else { continue };
+        let (big, small) = (&combos[bi].spec, &combos[si].spec);
+        let (bfull, sfull) = (lens[bi], lens[si]);
+        if bfull == 0 || sfull == 0 {
+            continue;
+        }
+        let mut firsts: Vec<(Fault, Pre)> = vec![
+            (Fault::DestIsDir { nonempty: false }, Pre::Absent),
+            (Fault::DestIsDir { nonempty: true }, Pre::Absent),
+            (Fault::Fsize { limit: (bfull / 2).max(1) }, Pre::Old { len: 1500 }),
+        ];
+        if let Some((rn, k)) = &rename_point {
+            firsts.push((Fault::Inject(Inject::Kill { syscall: rn.clone(), k: *k }), Pre::Old { len: 1500 }));
+            firsts.push((Fault::Inject(Inject::Kill { syscall: rn.clone(), k: *k }), Pre::Absent));
+            firsts.push((Fault::Inject(Inject::Errno { syscall: rn.clone(), k: *k, errno: "EACCES".into(), persistent: false }), Pre::Old { len: 1500 }));
+            // killed after the data was written, before the temp file is closed and renamed
+            if let Some(k) = traces.iter().flatten().flat_map(|t| t.iter()).find(|l| l.after_begin && l.name == "close").map(|l| l.k) {
+                firsts.push((Fault::Inject(Inject::Kill { syscall: "close".into(), k }), Pre::Old { len: 1500 }));
+            }
+        }
+        for (f, p) in firsts {
+            for second in [Fault::None, Fault::Fsize { limit: (sfull / 2).max(1) }] {
+                for (a, b) in [(big, small), (small, big)] {
+                    chain_cases.push(ChainCase {
+                        kind,
+                        name: None,
+                        pre: p.clone(),
+                        steps: vec![Step { spec: a.clone(), fault: f.clone() }, Step { spec: b.clone(), fault: second.clone() }],
+                    });
+                }
+            }
+        }
+    }
+    let chain_results: Vec<Result<(Verdict, Vec<Info>), Trouble>> = chain_cases.par_iter().map(check_chain).collect();
+    let mut chain_sampled = false;
+    for (c, r) in chain_cases.iter().zip(chain_results) {
+        match r {
+            Err(t) => leg.troubles.lock().unwrap().push(format!("chain: {:?}: {}", c, t.0)),
+            Ok((v, infos)) => {
+                // non-trivial: the second save started with a leftover temp file in the directory
+                let leftover_before_second = infos.first().map(|i| !i.leftovers.is_empty()).unwrap_or(false);
+                ctx.count_case(case_fp("chain", c), leftover_before_second);
+                let outcomes: Vec<&str> = infos.iter().map(|i| i.outcome.as_str()).collect();
+                ctx.add_class(&format!("chain/{}/{}{}", c.kind.tag(), outcomes.join("-then-"), if leftover_before_second { "/second-save-met-leftover-temp" } else { "" }), 1);
+                if leftover_before_second && !chain_sampled {
+                    chain_sampled = true;
+                    ctx.add_sample(json!({"sub": "chain", "case": c, "outcomes": outcomes}));
+                }
+                ctx.judge("chain", c, v);
+            }
+        }
+    }
 
     // ---- (e) concurrent observer
     let mut obs_cases = Vec::new();
@@ -1102,6 +1586,7 @@ fn extra(ctx: &Ctx) {
             },
             old_len: 30_000,
             observers: 2,
+            name: None,
         });
         // and a pair that fits the buffer (xlsx, csv)
         if matches!(kind, SaveKind::Xlsx | SaveKind::Csv) {
@@ -1112,6 +1597,17 @@ fn extra(ctx: &Ctx) {
                 iterations: ctx.tier.pick(200, 3000),
                 old_len: 3000,
                 observers: 2,
+                name: None,
+            });
+            // the same with a destination that is itself called *.tmp
+            obs_cases.push(ObsCase {
+                kind,
+                spec_a: spec(40, 8, 24, s(5)),
+                spec_b: spec(3, 2, 8, s(6)),
+                iterations: ctx.tier.pick(60, 1000),
+                old_len: 3000,
+                observers: 2,
+                name: Some("book.tmp".into()),
             });
         }
     }
@@ -1133,6 +1629,42 @@ fn extra(ctx: &Ctx) {
         }
     }
 
+    // ---- (i) concurrent saves to same-stem destinations of one directory
+    let mut conc_cases = Vec::new();
+    for kind in SaveKind::ALL {
+        let s = |k: u64| splitmix(ctx.seed ^ 0xC0C0 ^ k ^ kind as u64) as u32;
+        let names: Vec<Vec<String>> = match kind {
+            SaveKind::Csv => vec![vec!["report.csv".into(), "report.txt".into()], vec!["report.v1.csv".into(), "report.v2.csv".into(), "report.v1.tsv".into()]],
+            _ => vec![vec!["report.xlsx".into(), "report.xlsm".into()], vec!["report.v1.xlsx".into(), "report.v2.xlsx".into(), "report.v1.xlsm".into()]],
+        };
+        for (j, ns) in names.into_iter().enumerate() {
+            let specs: Vec<BookSpec> = (0..ns.len()).map(|q| spec(if q % 2 == 0 { 120 } else { 30 } + q as u32, 8, 24, s(q as u64 + 10 * j as u64))).collect();
+            conc_cases.push(ConcCase {
+                kind,
+                names: ns,
+                specs,
+                iterations: match kind {
+                    SaveKind::Password => ctx.tier.pick(8, 60),
+                    _ => ctx.tier.pick(60, 1000),
+                },
+                old_len: 2000,
+            });
+        }
+    }
+    let conc_results: Vec<Result<(Verdict, ConcInfo), Trouble>> = conc_cases.par_iter().map(check_concurrent).collect();
+    for (c, r) in conc_cases.iter().zip(conc_results) {
+        match r {
+            Err(t) => leg.troubles.lock().unwrap().push(format!("concurrent: {}", t.0)),
+            Ok((v, info)) => {
+                ctx.count_case(case_fp("concurrent", c), info.saves_ok >= 2);
+                ctx.add_class(&format!("concurrent/{}/saves-ok", c.kind.tag()), info.saves_ok);
+                ctx.add_class(&format!("concurrent/{}/saves-err", c.kind.tag()), info.saves_err);
+                ctx.add_class(&format!("concurrent/{}/reads", c.kind.tag()), info.reads);
+                ctx.judge("concurrent", c, v);
+            }
+        }
+    }
+
     ctx.set_extra(
         "fault_legs",
         json!({
@@ -1141,6 +1673,10 @@ fn extra(ctx: &Ctx) {
             "kill_cases": n_kill,
             "errno_cases": n_errno,
             "observer_cases": obs_cases.len(),
+            "stale_tmp_cases": n_stale,
+            "name_cases": n_names,
+            "chain_cases": chain_cases.len(),
+            "concurrent_cases": conc_cases.len(),
             "observer_reads": obs_reads,
             "kill_mode": kill_mode,
             "exhaustive_offsets_for": exhaustive_offsets,
@@ -1165,12 +1701,32 @@ fn extra(ctx: &Ctx) {
 
 fn replay_extra(_ctx: &Ctx, sub: &str, case: &Value) -> Option<Verdict> {
     match sub {
-        "fsize" | "target" | "kill" | "errno" => {
+        "fsize" | "target" | "kill" | "errno" | "stale" | "names" => {
             let c: PathCase = match serde_json::from_value(case.clone()) {
                 Ok(c) => c,
                 Err(e) => return Some(Verdict::Discard(format!("cannot deserialise case: {}", e))),
             };
             Some(match check_path_case(&c, false) {
+                Ok((v, _)) => v,
+                Err(t) => Verdict::Discard(format!("harness trouble: {}", t.0)),
+            })
+        }
+        "chain" => {
+            let c: ChainCase = match serde_json::from_value(case.clone()) {
+                Ok(c) => c,
+                Err(e) => return Some(Verdict::Discard(format!("cannot deserialise case: {}", e))),
+            };
+            Some(match check_chain(&c) {
+                Ok((v, _)) => v,
+                Err(t) => Verdict::Discard(format!("harness trouble: {}", t.0)),
+            })
+        }
+        "concurrent" => {
+            let c: ConcCase = match serde_json::from_value(case.clone()) {
+                Ok(c) => c,
+                Err(e) => return Some(Verdict::Discard(format!("cannot deserialise case: {}", e))),
+            };
+            Some(match check_concurrent(&c) {
                 Ok((v, _)) => v,
                 Err(t) => Verdict::Discard(format!("harness trouble: {}", t.0)),
             })
